@@ -94,6 +94,20 @@ def _pair(m, classes, rules, minimum):
     return out
 
 
+def guarded(rule, descr, fn):
+    """run one rule; an AnalysisBroken inside it becomes an inconclusive result of that rule instead of ending the whole check
+    (so that the rule which names the cause - e.g. D-REC for a recursive helper - still reports)"""
+    from .ir import AnalysisBroken
+    from .report import RuleResult
+    try:
+        return fn()
+    except AnalysisBroken as e:
+        r = RuleResult(rule, descr)
+        r.sites += 1
+        r.broken('%s: %s' % (rule, e))
+        return r
+
+
 def only_functions(res, prefixes):
     """restrict a result to findings in functions of the given classes (the counts keep describing the whole rule)"""
     res.findings = [f for f in res.findings if f.function.startswith(tuple(prefixes))]
@@ -117,14 +131,15 @@ def c02(m, tier):
         rules_decl.rule_encapsulation(m), rules_struct.rule_bulk_complete(m), rules_struct.rule_observer_loops(m), rules_decl.rule_defaults(m), rules_ts.rule_cursor_direction(m),
         rules_xport.rule_idx(m),
         # the edge-sequence constructors and the conversion from a directed graph are insertions too (unforced, both halves)
-        only_functions(rules_xport.rule_xport(m), ['LabeledUndirectedGraph'])]
+        only_functions(rules_xport.rule_xport(m), ['LabeledUndirectedGraph']), rules_ts.rule_shift_width(m)]
 
 
 def c03(m, tier):
     return _pair(m, None, ['F-PAIR.L', 'F-KEY'], {'F-PAIR.L': 30, 'F-KEY': 15}) + [
         rules_struct.rule_label_writes(m, coherent_store=True), rules_val.rule_getlabel(m), rules_struct.rule_hasedge(m),
         rules_struct.rule_insertion_guard(m), rules_struct.rule_label_subscripts(m), rules_struct.rule_bulk_complete(m),
-        rules_struct.rule_full_loops(m, [LDG, LUG]), rules_decl.rule_defaults(m), rules_ts.rule_cursor_direction(m)]
+        rules_struct.rule_full_loops(m, [LDG, LUG]), rules_decl.rule_defaults(m), rules_ts.rule_cursor_direction(m),
+        rules_decl.rule_encapsulation(m)]
 
 
 def c04(m, tier):
@@ -143,7 +158,8 @@ def c05(m, tier):
         rules_struct.rule_insertion_guard(m), rules_struct.rule_observers(m), rules_struct.rule_label_writes(m),
         rules_decl.rule_encapsulation(m), rules_val.rule_getlabel(m), rules_struct.rule_bulk_complete(m),
         rules_struct.rule_setters(m), rules_struct.rule_label_subscripts(m), rules_struct.rule_forwarding(m),
-        rules_struct.rule_observer_loops(m), rules_struct.rule_full_loops(m, [DWG, UWG]), rules_decl.rule_defaults(m), rules_ts.rule_cursor_direction(m)]
+        rules_struct.rule_observer_loops(m), rules_struct.rule_full_loops(m, [DWG, UWG]), rules_decl.rule_defaults(m), rules_ts.rule_cursor_direction(m),
+        rules_decl.rule_sibling_totals(m), rules_ts.rule_accumulator_width(m)]
 
 
 def c06(m, tier):
@@ -157,7 +173,8 @@ def c16(m, tier):
     return [rules_struct.rule_insertion_guard(m)] + _pair(
         m, None, ['F-PAIR.N', 'F-PAIR.T', 'F-PAIR.M', 'F-PAIR.L'],
         {'F-PAIR.N': 40, 'F-PAIR.T': 17, 'F-PAIR.M': 15, 'F-PAIR.L': 30}) + [rules_ts.rule_sorted_range(m), rules_decl.rule_defaults(m), rules_ts.rule_cursor_direction(m),
-         rules_struct.rule_selfloop_convention(m), rules_struct.rule_forwarding(m), rules_ts.rule_accumulator_width(m)]
+         rules_struct.rule_selfloop_convention(m), rules_struct.rule_forwarding(m), rules_ts.rule_accumulator_width(m),
+         rules_struct.rule_full_loops(m)]
 
 
 def c08(m, tier):
@@ -174,12 +191,12 @@ def c09(m, tier):
 
 def c10(m, tier):
     return [rules_xport.rule_xport(m), rules_val.rule_val(m, val_engine(m)), dropped_cells_result(m, {'sub'}), rules_val.rule_invented_index(m),
-            rules_decl.rule_valsem(m)]
+            rules_decl.rule_valsem(m), rules_ts.rule_shift_width(m)]
 
 
 def c13(m, tier):
     return [rules_io.rule_schema_text(m), rules_io.rule_tokeniser_schema(m), rules_io.rule_open(m), rules_io.rule_grow(m, 'text'),
-            dropped_cells_result(m, {'io.text'})]
+            dropped_cells_result(m, {'io.text'}), only_functions(rules_decl.rule_pure(m), ['io::'])]
 
 
 def c14(m, tier):
@@ -200,13 +217,15 @@ def c17(m, tier):
     heap.require_sites(3, 'heap facts')
     return [rules_ts.rule_typestate(m), heap, rules_io.rule_checked_read(m), rules_val.rule_val(m, val_engine(m)),
             rules_xport.rule_idx(m), rules_io.rule_wrap(m), rules_io.rule_tokeniser_access(m), rules_decl.rule_init(m), rules_ts.rule_signed_arith(m), rules_ts.rule_sorted_range(m), rules_ts.rule_cursor_direction(m), rules_io.rule_grow(m, 'text'), rules_ts.rule_cursor_live(m),
-            rules_ts.rule_accumulator_width(m), rules_ts.rule_string_plus_int(m)]
+            rules_ts.rule_accumulator_width(m), rules_ts.rule_string_plus_int(m), rules_decl.rule_no_recursion(m), rules_ts.rule_shift_width(m), rules_ts.rule_second_range(m)]
 
 
 def c11(m, tier):
     wl, bound, heap = rules_wl.run_searches(m, {'S-BFS', 'S-BFS-ALL'})
     wl.require_sites(50, 'schema facts')
-    return [wl, rules_wl.rule_wrappers(m), rules_wl.rule_enumpaths(m), rules_struct.rule_forwarding(m), rules_val.rule_val(m, val_engine(m))]
+    return [wl, rules_wl.rule_wrappers(m), rules_wl.rule_enumpaths(m), rules_struct.rule_forwarding(m),
+            guarded('F-VAL', 'validated vertex arguments', lambda: rules_val.rule_val(m, val_engine(m))),
+            rules_decl.rule_no_recursion(m)]
 
 
 def c12(m, tier):
@@ -221,7 +240,7 @@ def c19(m, tier):
     wl, bound, heap = rules_wl.run_searches(m, {'S-BFS', 'S-BFS-ALL', 'S-LC'})
     bound.require_sites(30, 'counting facts')
     heap.require_sites(3, 'heap facts')
-    return [bound, heap]
+    return [bound, heap, rules_decl.rule_no_recursion(m)]
 
 
 _WL_TB = ['the textbook theorems for the schemas (BFS computes hop distances and parents; label-correcting search with '
